@@ -155,7 +155,7 @@ def run_property(mod, tier: str, seed: int, t0: float, only_part=None) -> int:
 
     # label coverage demanded by the property's quantifier
     req = getattr(mod, "REQUIRED_LABELS", {})
-    if not only_part:
+    if not only_part and not violations:  # failing cases record no labels
         for lb, frac in req.items():
             have = total.labels.get(lb, 0)
             if have < max(1, frac * total.evals) and not total.budget_exhausted:
@@ -207,7 +207,8 @@ def run_property(mod, tier: str, seed: int, t0: float, only_part=None) -> int:
     if harness_problems:
         for h in harness_problems:
             print("HARNESS-ERROR:", h)
-        return 2
+        if not violations:
+            return 2
     if violations:
         for what, p in violations:
             print(f"  violated: {what}")
